@@ -295,8 +295,20 @@ def execute(ctx, sc):
         io_events += w.fs.seq
         return w, st
 
+    n_vars_before = []          # number of variables that exist before op j
+    nv = len(probe.chunk_rows)
+    for op in ops:
+        n_vars_before.append(nv)
+        if op["op"] in ("sel", "concat", "replace"):
+            nv += 1
     for j, op in enumerate(ops):
         targets = sorted(set(operands_of(op)))
+        if op["op"] == "setattr":
+            # explicit attribute assignment changes its target (excluded by the property) — and nothing else:
+            # every OTHER variable is bracketed
+            targets = [t for t in range(n_vars_before[j]) if t != op["src"]]
+            if not targets:
+                continue
         ctx.steps += 1
         w0, before = fresh(ops[:j], targets)
         if raised(before):
@@ -319,6 +331,8 @@ def execute(ctx, sc):
                           "before": core.short(before[t].get(which), 400),
                           "after": core.short(after[t].get(which) if isinstance(after[t], dict) else after[t], 400)})
                 raise Violation("operand_unchanged", f"{fmt.name}.{op['op']}.{which}", d)
+        if op["op"] == "setattr":
+            continue
         # twice-applied equality
         w2 = L.World(f, lazy, sc["chunk_k"])
         err = w2.run(ops[:j + 1] + [op])
